@@ -136,7 +136,7 @@ TRACE_INVS = ["C01_AtMostOnce", "C01_RealTimeFIFO", "C01_NoOverlap", "C01_Fold",
               "C05_KeepAlive", "C05_DrainOnDrop", "C05_UpgradeDead", "C06", "C07", "C08", "C09_ExactlyOnce", "C09_Delivered", "C09_CommonOrder", "C09_PublisherOrder", "C09_BrokerNeverFails", "C10", "C11", "C12", "C13", "C13_FairSelect", "C14", "C15", "C16", "C17"]
 
 
-def validate_shard(traces, dev, workdir, tag, timeout=600, profile="debug"):
+def validate_shard(traces, dev, workdir, tag, timeout=1500, profile="debug"):
     """Validate the concatenation of `traces` with TLC. Returns a list of per-trace results
     (same order): {"ok": True} | {"ok": False, "kind": "reject"|"invariant", ...}."""
     stage_spec(workdir)
